@@ -22,6 +22,7 @@ type pathOutcome struct {
 	reached int    // how many components matched
 	dotted  bool   // some matched component contains '.'
 	wide    bool   // the addressed value lives in an object with > 16 fields
+	escaped bool   // some matched key is spelled with a non-minimal JSON escape in the event
 }
 
 // resolve walks path from root through objects only.
@@ -55,6 +56,9 @@ func resolve(root *node, path []string) (target *node, way []*node, out pathOutc
 		out.reached = i + 1
 		if strings.Contains(k, ".") {
 			out.dotted = true
+		}
+		if cur.rk != nil && cur.rk[idx] != "" {
+			out.escaped = true
 		}
 		way = append(way, cur)
 		if i == len(path)-1 {
